@@ -4,6 +4,7 @@ Statements over ALL rule-labelled trees (error nodes included) + instance side c
 regenerated from /repo on every run (Generated/Visitors.lean, Generated/Grammar.lean, Generated/Frontend.lean).
 -/
 import Dawgs.Proofs.C08
+import Dawgs.Proofs.C08Parts
 import Dawgs.Spec.C08
 import Dawgs.Generated.Frontend
 namespace Dawgs.C08.Props
@@ -71,6 +72,33 @@ bodies that depend on visitor fields — nil dereferences such as `s.Query.Singl
 theorem listener_no_panic_recovered_partial (t : Tree) (_hwf : t.wf refs = true) (errors : Nat) (why : String) :
     T.outcome errors t ≠ .panic why ∧ TD.outcome errors t ≠ .panic why :=
   outcome_not_panic t errors why
+
+/-! ### visitor-field state: the Parts / partIdx bookkeeping of MultiPartQueryVisitor -/
+
+/-- MultiPartQuery.CurrentPart is `Parts[len(Parts)-1]`, as the counter machine assumes -/
+theorem current_part_as_modelled : Generated.Visitors.srcCurrentPart = expectedCurrentPart := rfl
+
+/-- the table condition: every method pair that touches Parts/partIdx keeps the instance inside {len = idx, len = idx + 1}
+and accesses CurrentPart() only when len = idx + 1 — from either state, atomically when its Enter pushes unconditionally -/
+theorem parts_table_safe : partsSafe T PT = true := by decide +kernel
+
+/-- `multipart_index_in_range`: for EVERY tree (grammar-conforming or not) and whatever visitor is active at its root, no
+`CurrentPart()` is evaluated on an empty `Parts` slice (the Go panic index out of range [-1]) and every one returns the part
+of the current index, `Parts[partIdx]` — a clause is never attached to a part that a WITH has already closed. -/
+theorem multipart_index_in_range (t : Tree) (V : Nat) :
+    ∃ c, T.pwalk PT V t { len := 0, idx := 0 } = .ok c ∧ (c.len = c.idx ∨ c.len = c.idx + 1) :=
+  pwalk_ok T PT (itemSafe_all parts_table_safe) t V _ inv_init
+
+/-- teeth: an UpdatingClause pair whose Enter does not allocate (refactor into a helper that one caller forgets), and one
+that allocates only when Parts is empty, are both rejected by the condition -/
+example : partsSafe T [(23, 19, true, [0]), (23, 51, true, [0]), (23, 19, false, [1]), (23, 18, false, [1]), (23, 51, false, [1, 2])] = false := by
+  decide +kernel
+example : partsSafe T [(23, 19, true, [0]), (23, 18, true, [3]), (23, 51, true, [0]), (23, 19, false, [1]), (23, 18, false, [1]), (23, 51, false, [1, 2])] = false := by
+  decide +kernel
+/-- non-vacuity: `create (n) with n return n` (UpdatingClause, With, SinglePartQuery under a MultiPartQuery): run under the
+MultiPartQueryVisitor itself the machine allocates one part and closes it -/
+example : (match T.pwalkL PT 23 [.node 18 [], .node 51 [], .node 16 []] { len := 0, idx := 0 } with
+    | .ok c => c.len == 1 && c.idx == 1 | .error _ => false) = true := by decide +kernel
 
 /-! ### linear listener work -/
 
